@@ -1435,6 +1435,10 @@ class PGPKey(Armorable, ParentRef, PGPObject):
         if expires is not None:
             return expires <= datetime.now(timezone.utc)
 
+        # a subkey carries no user ids of its own: it is only as good as the primary key it is bound to
+        if not self.is_primary and self.parent is not None:
+            return self.parent.is_expired
+
         return False
 
     @property
@@ -2432,7 +2436,7 @@ class PGPKey(Armorable, ParentRef, PGPObject):
     def check_management(self, self_verifying=False):
         res = self.self_verified
         if self.is_expired:
-            warnings.warn('Key {} has expired at {:s}'.format(repr(self), self.expires_at))
+            warnings.warn('Key {} has expired at {!s}'.format(repr(self), self.expires_at or self.parent.expires_at))
             res |= SecurityIssues.Expired
 
         warnings.warn("TODO: Revocation checks are not yet implemented!!!")
